@@ -295,6 +295,43 @@ func genW3(r *simrt.Rng, prop string, tier string) (*w3Ops, []*model.Desc) {
 			}
 		}
 		g := newScriptGen(r, d)
+		tap := func(action string, times int) {
+			for _, ak := range d.Actions {
+				if ak.Action == action {
+					for k := 0; k < times; k++ {
+						if g.pressAction(ak) {
+							g.release(ak.Code)
+						}
+					}
+				}
+			}
+		}
+		if prop == "C17" {
+			switch r.Pick(88, 6, 6) {
+			case 1:
+				// the same total transposition reached a second time with another octave / semitone split
+				k := r.Range(1, 2)
+				up, down := "octave_up", "semitone_down"
+				if r.Chance(0.5) {
+					up, down = "octave_down", "semitone_up"
+				}
+				if r.Chance(0.5) {
+					tap(up, k)
+					tap(down, 12*k)
+				} else {
+					tap(down, 12*k)
+					tap(up, k)
+				}
+			case 2:
+				// transposition far beyond the MIDI range (and back)
+				dir := []string{"octave_up", "octave_down"}[r.Intn(2)]
+				k := r.Range(9, 15)
+				tap(dir, k)
+				if r.Chance(0.5) {
+					tap(partnerOf(dir), r.Range(1, k))
+				}
+			}
+		}
 		n := r.Range(4, 30)
 		for j := 0; j < n; j++ {
 			switch r.Pick(6, 4, 1) {
